@@ -248,6 +248,24 @@ class G:
                 use = ("op", "PopU", [("nary", "Add", [("load", ok_v), ("int", 1)])]) if vty == ANY else \
                       ("op", "PopU", [("nary", "Add", [("load", ok_v), ("load", val_v)])])
                 return ("maybe", kind, args, val_v, ok_v, use)
+        if c < 0.44 and cfg.maybe and self.operand == 0:
+            from recipes import MULTI
+            kind = r.choice(sorted(MULTI))
+            _op_, _teal, argt, outt, minv = MULTI[kind]
+            if minv <= cfg.version:
+                self.note("multi")
+                args = [self.expr(U, max(0, d - 1)) if r.random() < 0.5 else ("int", r.choice([0, 1, 2, 3, 7, 2 ** 32, 2 ** 63, 2 ** 64 - 1])) for _ in argt]
+                outs = [Var(U) for _ in outt]
+                self.mvars += outs
+                # every output has its own weight, so exchanged outputs change the value
+                acc = ("load", outs[0])
+                for i, v in enumerate(outs[1:], 1):
+                    acc = ("op", "BitwiseXor", [acc, ("op", "Div", [("load", v), ("int", i + 1)])])
+                if cfg.mode == "app" and cfg.effects:
+                    use = ("op", "GlobalPutU", [("bytes", b"k1"), acc])
+                else:
+                    use = ("op", "PopU", [acc])
+                return ("multi", kind, args, outs, use)
         if c < 0.45:
             self.note("assert")
             k = r.choice([1, 1, 2, 3])
@@ -443,6 +461,9 @@ def required_version(n) -> int:
         if t == "maybe":
             from recipes import MAYBE
             m = max(m, MAYBE[n[1]][5])
+        if t == "multi":
+            from recipes import MULTI
+            m = max(m, MULTI[n[1]][4])
         if t in ("dload", "dstore"):
             m = max(m, 5)
         if t in ("pload", "pstore"):
